@@ -101,10 +101,15 @@ def judge(part, dtstart, r, N, got, ended, mon, style, text, orc):
             return [("invalid-instant", "stream produced %s" % (g[1],))]
     E, exhausted, npop = orc
     # the oracle (and the library's calendar) ends with 2099: whatever comes after that is not judged
-    n0 = len(got)
+    n0, e0 = len(got), len(E)
     got = [x for x in got if x.year <= 2099]
+    E = [x for x in E if x.year <= 2099]
     if len(got) < n0:
-        ended = True
+        # the stream went past 2099, so it is complete up to there: compare exactly that
+        ended, exhausted, npop = True, True, len(got)
+    elif len(E) < e0:
+        exhausted = False
+        npop = min(npop, len(E))
     if mon:
         fails.append(("pop!=peek", mon[0]))
     if r.get("count") is not None and len(got) > r["count"]:
